@@ -54,9 +54,21 @@ def target_pre(ts_):
     return "".join("{%% set zn_%s %%}%s{%% endset %%}" % (t[1], t[1]) for t in ts_ if t[0] == "s")
 
 
+IF_WRAPS = [("", ""), ("{% if 1 %}", "{% endif %}"), ("{% if 0 %}{% else %}", "{% endif %}"),
+            ("{% if 0 %}{% elif 1 %}", "{% endif %}"), ("{% if 1 %}{% if 1 %}", "{% endif %}{% endif %}")]
+
+
 class Src:
     def __init__(self):
         self.n = 0
+        self.k = 0
+
+    def wrapped(self, text):
+        """an assignment / macro definition directly or under a top-level if / else / elif (a soft frame: same scope,
+        same exports), chosen by position so that the source of a template is stable"""
+        self.k += 1
+        o, c = IF_WRAPS[self.k % len(IF_WRAPS)]
+        return o + text + c
 
     def stmts(self, ss, out):
         for s in ss:
@@ -68,11 +80,12 @@ class Src:
             elif k == "a":
                 out.append(probe_src(s[1] + "." + s[2]))
             elif k == "s":
-                out.append("{%% set %s = %s %%}" % (s[1], repr(s[2][1]) if s[2][0] == "c" else s[2][1]))
+                out.append(self.wrapped("{%% set %s = %s %%}" % (s[1], repr(s[2][1]) if s[2][0] == "c" else s[2][1])))
             elif k == "T":
-                out.append("{%% set %s = %s %%}" % (", ".join(n for n, _ in s[1]), ", ".join(repr(v) for _, v in s[1])))
+                out.append(self.wrapped("{%% set %s = %s %%}" % (", ".join(n for n, _ in s[1]),
+                                                                   ", ".join(repr(v) for _, v in s[1]))))
             elif k == "m":
-                out.append("{%% macro %s() %%}%s{%% endmacro %%}" % (s[1], s[2]))
+                out.append(self.wrapped("{%% macro %s() %%}%s{%% endmacro %%}" % (s[1], s[2])))
             elif k == "i":
                 _, ts, is_list, wc, ign = s
                 out.append(target_pre(ts) if is_list != "var" else "")
